@@ -17,7 +17,8 @@ type VerifEntry struct {
 	ID, Ver, ConfVer uint64
 	Start, End       []byte
 	Valid            bool // TTL not run out (an invalidated region has ttl = expiredTTL)
-	Reload           bool // syncFlags has needReloadOnAccess
+	Reload           bool // syncFlags has needReloadOnAccess or needDelayedReloadReady
+	DelayedOnly      bool // needDelayedReloadReady without needReloadOnAccess
 	Leader           uint64
 	Peers            []uint64
 }
@@ -26,7 +27,8 @@ func verifEntry(r *Region) VerifEntry {
 	e := VerifEntry{ID: r.GetID(), Ver: r.meta.GetRegionEpoch().GetVersion(), ConfVer: r.meta.GetRegionEpoch().GetConfVer(),
 		Start: r.StartKey(), End: r.EndKey(),
 		Valid:  atomic.LoadInt64(&r.ttl) >= time.Now().Unix(),
-		Reload: r.checkSyncFlags(needReloadOnAccess),
+		Reload: r.checkSyncFlags(needReloadOnAccess | needDelayedReloadReady),
+		DelayedOnly: r.checkSyncFlags(needDelayedReloadReady) && !r.checkSyncFlags(needReloadOnAccess),
 		Leader: r.GetLeaderStoreID()}
 	for _, p := range r.meta.Peers {
 		e.Peers = append(e.Peers, p.StoreId)
@@ -112,6 +114,16 @@ func (c *RegionCache) VerifExpire(v RegionVerID) bool {
 		return false
 	}
 	atomic.StoreInt64(&r.ttl, time.Now().Unix()-1000)
+	return true
+}
+
+// VerifSetDelayedReload marks the region the way the GC round does after needDelayedReloadPending.
+func (c *RegionCache) VerifSetDelayedReload(v RegionVerID) bool {
+	r := c.GetCachedRegionWithRLock(v)
+	if r == nil {
+		return false
+	}
+	r.setSyncFlags(needDelayedReloadReady)
 	return true
 }
 
